@@ -816,6 +816,18 @@ func (c *Ctx) ParamsDoc(withPathVars bool, withBodies ...bool) *Doc {
 					continue
 				}
 				ov := &Parameter{Name: r.Name, In: r.In, Required: !r.Required, Schema: c.ParamSchema(r.In, "override")}
+				// the overriding declaration may itself be a shared component (inline on the
+				// path item, $ref on the operation - or the other way round)
+				if rapid.Bool().Draw(t, "override_component") && c.AllowSchema(ov.Schema, "component-parameter-"+r.In) {
+					cs := c.comps()
+					if cs.Parameters == nil {
+						cs.Parameters = map[string]*Parameter{}
+					}
+					cname := c.CompName("Par", "ovcomp")
+					cs.Parameters[cname] = ov
+					ov = &Parameter{Ref: RefParameters + cname}
+					c.Tag("param:override-by-component")
+				}
 				op.Parameters = append(op.Parameters, ov)
 				c.Tag("param:override")
 			}
